@@ -19,7 +19,10 @@ Every function mirrors the Python method named in its comment, in the code's own
 and writes (the code as of the `fix:` commit "a refused RangeDimension.link_data_array /
 link_data_frame deleted the dimension's ticks": validation first, the ticks go once the link exists).
 Links to a column of a `DataFrame` (`link_data_frame`) are modelled for frames of float columns (content
-of the compound dataset and the `units` attribute are side tables like the array data).  Not modelled:
+of the compound dataset and the `units` attribute are side tables like the array data; a frame may have no
+`units` attribute at all, and the unit of a dimension linked to one of its columns follows the `fix:` commit
+"unit of a dimension linked to a frame column": it reads as `DataFrame.units` reads that column — None without
+units or for an empty entry — and assigning it works on a frame without units and with None).  Not modelled:
 the pre-1.5 "alias range dimension" layout (`is_alias and not has_link`, unreachable through the
 current API), `delete_dimensions`, polynomial calibration (the link reads the *stored* values:
 `DimensionLink.linked_data` is `h5group.get_data("data")`).
@@ -40,12 +43,48 @@ def put {α : Type} (m : List (Nat × α)) (k : Nat) (v : α) : List (Nat × α)
   m.filter (fun e => e.1 != k) ++ [(k, v)]
 
 /-- stored content of a data frame of float columns: the field names of the compound type, the
-`units` attribute (one entry per column; `none` where h5py stores an empty string) and the rows -/
+`units` attribute AS STORED (`none`: the frame has no such attribute — it was made without units and none
+was ever assigned; otherwise one text per column, the empty text standing for "no unit") and the rows -/
 structure FrameData where
   cols : List String
-  units : List (Option String)
+  units : Option (List String)
   rows : List (List Rat)
   deriving DecidableEq, Repr, Inhabited
+
+/-- how a unit (or None) is kept in the `units` attribute: None as the empty text -/
+def unitText : Option String → String
+  | some x => x
+  | none => ""
+
+/-- what `DataFrame.units = units` writes (`units_arr[idx] = ""` for None; the texts handed in are fixed
+points of the unit sanitizer) -/
+def storeUnits (units : List (Option String)) : List String := units.map unitText
+
+/-- how one stored entry of `units` reads: the empty text is "no unit" (`DataFrame.units`, and
+`DimensionLink.unit` since the `fix:` commit "unit of a dimension linked to a frame column") -/
+def readUnit (u : String) : Option String := if u == "" then none else some u
+
+/-- `DataFrame.units`: None without the attribute, else the entries with "" read as None -/
+def frameUnits (fd : FrameData) : Option (List (Option String)) := fd.units.map fun us => us.map readUnit
+
+/-- `DimensionLink.unit` (getter) of a link to column `c` of a frame: `None` for a frame without units,
+else the column's entry, "" read as None -/
+def linkFrameUnit (fd : FrameData) (c : Nat) : Except Err (Option String) :=
+  match fd.units with
+  | none => .ok none
+  | some us =>
+    match us[c]? with
+    | some u => .ok (readUnit u)
+    | none => .error .indexError
+
+/-- `DimensionLink.unit = v` on a link to column `c` of a frame: a frame without units gets one empty entry
+per column first, then the column's entry is replaced (`None` is written as the empty text) -/
+def setFrameUnit (fd : FrameData) (c : Nat) (v : Option String) : Except Err FrameData :=
+  let us := match fd.units with
+    | some us => us
+    | none => List.replicate fd.cols.length ""
+  if c < us.length then .ok { fd with units := some (us.set c (unitText v)) }
+  else .error .indexError
 
 structure DState where
   g : Graph := {}
@@ -199,12 +238,12 @@ def writeData (s : DState) (p : Path) (vals : List Rat) : Except Err DState :=
 
 /-! ## data frames -/
 
-/-- `Block.create_data_frame(name, type, col_names=…, col_dtypes=[float]*n, data=rows)` followed by
-`frame.units = units` — the one form generated: distinct column names, one unit (or None) per column,
-rows as long as there are columns.  `check_entity_name_and_type`, then the duplicate test on the
+/-- `Block.create_data_frame(name, type, col_names=…, col_dtypes=[float]*n, data=rows)`, followed by
+`frame.units = units` unless `units` is `none` (the frame then has no `units` attribute) — the one form
+generated: distinct column names, one unit (or None) per column, rows as long as there are columns.  `check_entity_name_and_type`, then the duplicate test on the
 (lazily created) `data_frames` group, then `Entity.create_new` + `create_dataset("data")`. -/
 def createFrame (s : DState) (owner : Path) (name type : String) (cols : List String)
-    (units : List (Option String)) (rows : List (List Rat)) : Except Err DState :=
+    (units : Option (List (Option String))) (rows : List (List Rat)) : Except Err DState :=
   match resolve s.g rootLoc owner with
   | none => .error .keyError
   | some o =>
@@ -215,7 +254,7 @@ def createFrame (s : DState) (owner : Path) (name type : String) (cols : List St
       | .ok () =>
         if (match s.g.child? o.key "data_frames" with | some c => s.g.hasChild c name | none => false) then
           .error .duplicateName
-        else if cols.isEmpty || !cols.Nodup || units.length != cols.length
+        else if cols.isEmpty || !cols.Nodup || (match units with | some us => us.length != cols.length | none => false)
             || rows.any (fun r => r.length != cols.length) then .error .valueError    -- never generated
         else
           match entityCreateNew s.g o.key "data_frames" name type "data_frame" with
@@ -223,7 +262,8 @@ def createFrame (s : DState) (owner : Path) (name type : String) (cols : List St
           | .ok (g1, k) =>
             let g2 := addDataset g1 k "data"
             match g2.child? k "data" with
-            | some ds => .ok { s with g := g2, frames := put s.frames ds { cols := cols, units := units, rows := rows } }
+            | some ds =>
+              .ok { s with g := g2, frames := put s.frames ds { cols := cols, units := units.map storeUnits, rows := rows } }
             | none => .error .keyError
 
 /-- `frame.write_column(values, index=c)` through any path: one value per row, an existing column -/
@@ -242,6 +282,21 @@ def writeColumn (s : DState) (p : Path) (c : Nat) (vals : List Rat) : Except Err
         else
           let fd' : FrameData := { fd with rows := (fd.rows.zip vals).map fun rv => rv.1.set c rv.2 }
           .ok { s with frames := put s.frames ds fd' }
+
+/-- `frame.units = units` through any path (`DataFrame.units` setter): exactly one unit (or None) per column,
+else ValueError; None is stored as the empty text -/
+def setUnits (s : DState) (p : Path) (units : List (Option String)) : Except Err DState :=
+  match frameAt s p with
+  | .error e => .error e
+  | .ok f =>
+    match s.g.child? f "data" with
+    | none => .error .keyError
+    | some ds =>
+      match look s.frames ds with
+      | none => .error .keyError
+      | some fd =>
+        if units.length != fd.cols.length then .error .valueError
+        else .ok { s with frames := put s.frames ds { fd with units := some (storeUnits units) } }
 
 /-! ## dimension descriptors -/
 
@@ -415,8 +470,9 @@ def setDimAttr (s : DState) (p : Path) (i : Nat) (attr : String) (v : Option Str
             match (s.g.child? t "data").bind fun ds => (look s.frames ds).map fun fd => (ds, fd),
                   linkColumn s dn with
             | some (ds, fd), some c =>
-              if c < fd.units.length then .ok { s with frames := put s.frames ds { fd with units := fd.units.set c v } }
-              else .error .indexError
+              match setFrameUnit fd c v with
+              | .ok fd' => .ok { s with frames := put s.frames ds fd' }
+              | .error e => .error e
             | _, _ => .error .runtimeError
         else .ok { s with g := s.g.setAttr t attr v }
       | none => .error .runtimeError          -- dangling link (the target was deleted)
@@ -471,7 +527,7 @@ def readDimAttr (s : DState) (dn : Nat) (attr : String) : Except Err (Option Str
       if linkType s.g dn == "DataFrame" then
         match frameOf s t, linkColumn s dn with
         | some fd, some c =>
-          if attr == "unit" then (match fd.units[c]? with | some u => .ok u | none => .error .indexError)
+          if attr == "unit" then linkFrameUnit fd c
           else if attr == "label" then (match fd.cols[c]? with | some n => .ok (some n) | none => .error .indexError)
           else .ok none
         | _, _ => .error .runtimeError
@@ -496,8 +552,9 @@ inductive DOp where
   | setTicks (p : Path) (i : Nat) (ts : List Rat)
   | setLabels (p : Path) (i : Nat) (ls : List String)
   | setDimAttr (p : Path) (i : Nat) (attr : String) (v : Option String)
-  | createFrame (owner : Path) (name type : String) (cols : List String) (units : List (Option String))
+  | createFrame (owner : Path) (name type : String) (cols : List String) (units : Option (List (Option String)))
       (rows : List (List Rat))
+  | setUnits (p : Path) (units : List (Option String))
   | writeColumn (p : Path) (c : Nat) (vals : List Rat)
   | linkDataFrame (p : Path) (i : Nat) (target : Path) (c : Int)
   deriving Repr, Inhabited
@@ -513,6 +570,7 @@ def applyD (s : DState) : DOp → Option (Except Err DState)
   | .setLabels p i ls => some (setLabels s p i ls)
   | .setDimAttr p i a v => some (setDimAttr s p i a v)
   | .createFrame o n t cs us rs => some (createFrame s o n t cs us rs)
+  | .setUnits p us => some (setUnits s p us)
   | .writeColumn p c vs => some (writeColumn s p c vs)
   | .linkDataFrame p i tp c => (resolve s.g rootLoc tp).map fun l => linkDataFrame s p i l.key c
 
